@@ -248,7 +248,7 @@ func (c *Ctx) enterLoopHead(st *State, fr *Frame, li *loopInfo, pred *ssa.BasicB
 				continue
 			}
 			if s, okS := sortOf(et); okS && s != SNone {
-				if _, isStruct := et.Underlying().(interface{ NumFields() int }); isStruct {
+				if isRepoStruct(et) {
 					continue
 				}
 				nv := c.freshTyped(st, "lh_"+k.Comment, et)
